@@ -190,8 +190,9 @@ TypeOK == /\ p \in 1..NP /\ ip \in 0..(NI(p) - 1) /\ mode \in {"idle", "run"} /\
 \* targets inside the code, frames present, stack maps valid
 NoStuck == Cur.def /\ \A k \in DOMAIN stack : MapOK(k)
 \* C05/C17: break opcodes are exactly the sites of enabled lines, everything else is pristine
-BrkSync == \A i \in 0..(NI(p) - 1) :
-             ops[i + 1] = IF i \in EnabledIdx THEN "BRK" ELSE (IF Ins(p, i).op = "BRK" THEN "PB" ELSE Ins(p, i).op)
+BrkSync == LET en == EnabledIdx IN
+           \A i \in 0..(NI(p) - 1) :
+             ops[i + 1] = IF i \in en THEN "BRK" ELSE (IF Ins(p, i).op = "BRK" THEN "PB" ELSE Ins(p, i).op)
 \* C05: same instruction path and same memory as the uninterrupted run
 Transparent == g.def /\ GSkip(p, ip) = g.ip /\ data = g.data /\ stack = g.stack
 \* C06: the next instruction reports a stop exactly when the site table says so
